@@ -127,7 +127,7 @@ def wf(labels):
         len(l) > 0 for l in labels[:-1])
 
 
-class Hang(Exception):
+class Hang(BaseException):
     pass
 
 
